@@ -21,7 +21,7 @@ From Coq Require Import List QArith Reals Qreals Lra Bool Arith String.
 From PV Require Import Base.IPS Model.Dict Model.Terms Model.ClassGen Spec.Sem Spec.Reference Spec.Classes.
 From PV Require Import Proofs.DictLemmas Proofs.SemLemmas Proofs.ClassGenLemmas Proofs.C04Lemmas.
 From PV Require Import Proofs.MembersB Proofs.MembersC.
-From PV Require Import Proofs.C03Core Proofs.C03Assembly Proofs.C03Examples.
+From PV Require Import Proofs.C03Core Proofs.C03Assembly Proofs.C03Examples Proofs.C03Rotation.
 From PV Require Import Gen.Classes.
 Import ListNotations.
 Local Open Scope R_scope.
@@ -377,3 +377,52 @@ Example C03_SmoothStronglyConvexQuadraticFunction_nonvacuous :
   List.length (g_cons (run_plan plan_SmoothStronglyConvexQuadraticFunction ex6_st)) = 6%nat /\
   List.length (g_lmis (run_plan plan_SmoothStronglyConvexQuadraticFunction ex6_st)) = 1%nat.
 Proof. exact ex_SmoothStronglyConvexQuadraticFunction. Qed.
+
+(** * Non-gradient members: the scaled rotations a I + b J of the plane ([rot_graph a b], Proofs/C03Rotation.v) sit on
+      the boundary of the monotone-type classes and are not gradients (b <> 0).  They are what separates the operator
+      classes from the classes of gradient fields; the failing-input search of this check (harness/members.py)
+      samples exactly these members numerically. *)
+Theorem C03_rotation_scaled_strongly_monotone :
+  forall a b : R, strongly_monotone_op a (rot_graph a b).
+Proof. exact rotation_scaled_strongly_monotone. Qed.
+Print Assumptions C03_rotation_scaled_strongly_monotone.
+
+Theorem C03_rotation_scaled_cocoercive :
+  forall a b : R, 0 < a * a + b * b -> cocoercive_op (a / (a * a + b * b)) (rot_graph a b).
+Proof. exact rotation_scaled_cocoercive. Qed.
+Print Assumptions C03_rotation_scaled_cocoercive.
+
+Theorem C03_rotation_scaled_cocoercive_strongly_monotone :
+  forall a b : R, 0 < a * a + b * b ->
+    cocoercive_strongly_monotone_op a (a / (a * a + b * b)) (rot_graph a b).
+Proof. exact rotation_scaled_cocoercive_strongly_monotone. Qed.
+Print Assumptions C03_rotation_scaled_cocoercive_strongly_monotone.
+
+Theorem C03_rotation_scaled_lipschitz :
+  forall a b L : R, a * a + b * b <= L ^ 2 -> lipschitz_op L (rot_graph a b).
+Proof. exact rotation_scaled_lipschitz. Qed.
+Print Assumptions C03_rotation_scaled_lipschitz.
+
+Theorem C03_rotation_scaled_neg_comonotone :
+  forall a b : R, 0 < a * a + b * b -> neg_comonotone_op (- a / (a * a + b * b)) (rot_graph a b).
+Proof. exact rotation_scaled_neg_comonotone. Qed.
+Print Assumptions C03_rotation_scaled_neg_comonotone.
+
+(** a member of CocoerciveStronglyMonotoneOperator(1, 1/2) on which the inequality valid for gradients of
+    mu-strongly convex 1/beta-smooth functions, <dg,dx> >= (beta |dg|^2 + mu |dx|^2)/(1 + mu beta), fails: generating
+    that inequality for the class would exclude a real member *)
+Theorem C03_rotation_violates_gradient_only_inequality :
+  let A := rot_graph 1 1 in
+  cocoercive_strongly_monotone_op 1 (1 / 2) A /\
+  exists x u y v, A x u /\ A y v /\
+    ~ (inner (vsub u v) (vsub x y) >= (1 / 2 * nrm2 (vsub u v) + 1 * nrm2 (vsub x y)) / (1 + 1 * (1 / 2))).
+Proof. exact rotation_violates_gradient_only_inequality. Qed.
+Print Assumptions C03_rotation_violates_gradient_only_inequality.
+
+Example C03_rotation_member_nonvacuous :
+  cocoercive_strongly_monotone_op 1 (1 / 2) (rot_graph 1 1) /\ par_is rot_st 1 1 /\ par_is rot_st 4 (1 / 2) /\
+  wf_state rot_st /\
+  (forall s, In s (f_points rot_st) -> genuine_op (rot_graph 1 1) (sval rot_rho (fun _ => 0) s)) /\
+  all_satisfied rot_rho (fun _ => 0) (run_plan plan_CocoerciveStronglyMonotoneOperator rot_st) /\
+  List.length (g_cons (run_plan plan_CocoerciveStronglyMonotoneOperator rot_st)) = 6%nat.
+Proof. exact rotation_member_example. Qed.
